@@ -6,8 +6,9 @@ import lib_doc as L
 from framework import Result
 
 ID = 'C01'
-LEAN_TARGETS = ['TexSoupProofs.Properties.C01']
-THEOREMS = ['TexSoup.C01.roundtrip', 'TexSoup.C01.roundtrip_tolerant', 'TexSoup.C01.node_text_is_its_tokens']
+LEAN_TARGETS = ['TexSoupProofs.Properties.C01', 'TexSoupProofs.Properties.C02Strings', 'TexSoupProofs.Properties.C13Positions']
+THEOREMS = ['TexSoup.C01.roundtrip', 'TexSoup.C01.roundtrip_tolerant', 'TexSoup.C01.node_text_is_its_tokens',
+            'TexSoup.C02.document_parses', 'TexSoup.C02.document_roundtrip', 'TexSoup.C13.node_first_char']
 PARTIAL = ['that every grammar document parses is token-level completeness (Properties/C02.lean, in progress) plus the '
            'tokenizer inverse: explored by this check']
 TRUSTED = ['harness/gen_doc.py (grammar of documented constructs, renderer with source spans, frame conditions)',
